@@ -682,6 +682,10 @@ def _restore_closure_once(tree, rel, b, known, stats):
         if any(x is first for x in ast.walk(st)):
           if isinstance(st, FN):
             continue
+          # every reference must be inside this block from here on (a definition placed in one branch is not visible in the other)
+          inside = set(id(x) for s2 in blk[i:] for x in ast.walk(s2))
+          if not all(id(r[3]) in inside for r in refs):
+            break
           blk.insert(i, nested)
           for pn, a in pre_assign.items():
             blk.insert(i, ast.copy_location(ast.Assign(targets=[ast.Name(id=pn, ctx=ast.Store())], value=copy.deepcopy(a)), st))
